@@ -270,13 +270,19 @@ type assignTarget struct {
 	et    types.Type
 	t     types.Type
 	ghost string
+	scalarGhost bool
 }
+
+// scalar ghost variables and their sorts
+var ghostScalarSorts = map[string]string{"now": "(_ BitVec 64)"}
 
 // assignTargets interprets one assigns clause.
 func (fc *FnCtx) assignTargets(env *SpecEnv, a *Clause) []assignTarget {
 	e := a.E
 	if strings.HasPrefix(a.Src, "ghost ") {
-		return nil
+		// scalar ghost variable, e.g. "ghost now"
+		name := strings.TrimSpace(strings.TrimPrefix(a.Src, "ghost "))
+		return []assignTarget{{ghost: "ghost|" + name, scalarGhost: true, keys: []keySort{{"ghost|" + name, ghostScalarSorts[name]}}}}
 	}
 	// s[lo:hi] or s[:] : elements of a slice
 	if e.K == "slice" {
@@ -346,6 +352,12 @@ func (br *bodyRun) applyContract(st *State, ct *Contract, key string, names []st
 		fc.prove(env, c.E, st, fmt.Sprintf("%spre-of:%s#%d:%s", br.prefix, short, ord, clauseName(c, i)), "pre-of", x.Pos(), c.Src)
 	}
 	pre := st.clone()
+	// the callee may allocate
+	{
+		na := fc.smt.declare("alloc", "Int")
+		fc.assume(st, app(">=", na, st.alloc))
+		st.alloc = na
+	}
 	// havoc the frame
 	for _, a := range ct.Assigns {
 		if a.Src == "everything" {
@@ -363,10 +375,6 @@ func (br *bodyRun) applyContract(st *State, ct *Contract, key string, names []st
 			res = nil
 		} else {
 			res = fc.fresh(rt, "r_"+sanitizeRe.ReplaceAllString(short, "_"))
-			// results may be freshly allocated by the callee
-			na := fc.smt.declare("alloc", "Int")
-			fc.assume(st, app(">=", na, st.alloc))
-			st.alloc = na
 			fc.assume(st, fc.typeInv(st, rt, res))
 		}
 	}
@@ -428,6 +436,12 @@ func shortKey(key string) string {
 
 // havocTarget forgets the value at one assigned location.
 func (fc *FnCtx) havocTarget(st, pre *State, tg assignTarget) {
+	if tg.scalarGhost {
+		fc.keySort[tg.ghost] = tg.keys[0].sort
+		fc.touched[tg.ghost] = true
+		st.heap[tg.ghost] = fc.smt.declare("ghost", tg.keys[0].sort)
+		return
+	}
 	if tg.ghost != "" {
 		h := fc.heapSym(st, tg.ghost, "(Array Int Bool)")
 		nv := fc.smt.declare("held", "Bool")
